@@ -202,7 +202,7 @@ def make_target(run):
                 raise HarnessError("adversarial target is deterministic-mode only")
             run.choice_points.append(("noise", k, len(P.NOISE)))
             c = P.noise_class_value(noise.get(k, "alt"), k)
-            sd = P.reported_sd(xx)
+            sd = P.reported_sd(xx) * float(job.get("sd_scale", 1.0))   # sd_scale: very small (but valid) reported SDs
             val = val + sd * c * float(job.get("noise_scale", 1.0))  # noise_scale 0: the reported SD is positive but nothing is added
         if second is not None and k == 1:
             val = run.first_val + second
